@@ -108,6 +108,9 @@ def parseFault (s : String) : Option (Option (Nat × FaultKind)) :=
     | _ => none
 
 def parseRun (ts : List String) : Option Run :=
+  -- an optional 4th token `nw` ("no wait": the harness starts the next materialisation right after this terminal
+  -- returned instead of waiting for the library's goroutines to wind down) does not change the meaning of the run
+  let ts := match ts with | [c, t, f, "nw"] => [c, t, f] | _ => ts
   match ts with
   | [c, t, f] => do
     let c ← match c with
